@@ -60,6 +60,9 @@ func newPool(ds ipld.DAGService, n int) *pool {
 	for i := 0; i < n; i++ {
 		nd := ft.EmptyFileNode()
 		nd.SetData([]byte(strings.Repeat("x", (i*53)%400) + fmt.Sprint(i)))
+		if i == n-1 {
+			nd.SetData([]byte(strings.Repeat("y", 20000))) // Tsize needs a three-byte varint
+		}
 		switch i % 3 {
 		case 1:
 			nd.SetCidBuilder(cid.V1Builder{Codec: cid.DagProtobuf, MhType: mh.SHA2_256})
@@ -519,7 +522,7 @@ func TestC16(t *testing.T) {
 	cs := vh.NewCases(e, "From V Require Import model.M_C15 model.M_C16.\nOpen Scope Z_scope.\nOpen Scope string_scope.", "case16", "check_case16", 40)
 	r := e.Rng
 	ds := mdtest.Mock()
-	p := newPool(ds, 18)
+	p := newPool(ds, 19) // the last one (index 18, CIDv0) is large
 	sorted := murmurSorted(e.Pick(40000, 200000))
 
 	emit := func(c config, edits []edit, tag string) {
@@ -564,6 +567,37 @@ func TestC16(t *testing.T) {
 
 	rep := func(ch string, n int) string { return strings.Repeat(ch, n) }
 	v0a, v1a, ida := 0, 1, 2 // pool indices: CIDv0 (34 bytes), CIDv1 (36 bytes), identity (short)
+
+	// ---- directed: a REPLACE in a still-basic directory across each Tsize varint width, the threshold at
+	// the resulting size -2..+2, in every estimation mode (seeded change C16-1: the overwritten entry sized
+	// with the new link's Tsize) ----
+	{
+		byWidth := map[int]int{} // Tsize varint width -> pool index of a CIDv0 value
+		for i, v := range p.vals {
+			if _, ok := byWidth[varintLen(v.tsize)]; !ok && v.cidlen == 34 {
+				byWidth[varintLen(v.tsize)] = i
+			}
+		}
+		for _, pair := range [][2]int{{1, 2}, {2, 1}, {1, 3}, {3, 1}, {2, 3}, {3, 2}} {
+			vo, okO := byWidth[pair[0]]
+			vn, okN := byWidth[pair[1]]
+			if !okO || !okN {
+				t.Fatalf("value pool has no Tsize of varint width %v", pair)
+			}
+			for mode := 0; mode < 3; mode++ {
+				for delta := -2; delta <= 2; delta++ {
+					c := config{width: 16, mode: uio.SizeEstimationMode(mode), global: 256 * 1024, dynamic: true}
+					if mode == 2 {
+						c.maxLinks = 3 + delta%2
+					}
+					after := map[string]int{"fill-a": vo, "fill-b": vn, "target": vn}
+					c.thresh = sizeOf(c, after, p) + delta
+					emit(c, []edit{{true, "fill-a", vo}, {true, "fill-b", vn}, {true, "target", vo}, {true, "target", vn},
+						{true, "target", vo}, {true, "target", vn}, {false, "fill-a", 0}}, "directed-replace-tsize")
+				}
+			}
+		}
+	}
 
 	// ---- corpus: persist, re-open from the root node, then remove (seeded change C16-2 in Shard.Node():
 	// a still-unloaded value link hoisted out of a dissolved sub-shard must be re-labelled with its slot) ----
